@@ -169,9 +169,9 @@ func textExpr(r *Rng, target string, keyVal *string, depth int) string {
 			return "key + " + strExpr(r, target[len(kv):], depth-1)
 		case kv != "" && strings.HasSuffix(target, kv):
 			return strExpr(r, target[:len(target)-len(kv)], depth-1) + " + key"
-		case target == strings.ToUpper(kv) && hasLower(kv):
+		case isASCIIPlain(kv) && target == strings.ToUpper(kv) && hasLower(kv):
 			return "upper(key)"
-		case target == strings.ToLower(kv) && hasUpper(kv):
+		case isASCIIPlain(kv) && target == strings.ToLower(kv) && hasUpper(kv):
 			return "lower(key)"
 		}
 	}
@@ -190,11 +190,11 @@ func strExpr(r *Rng, target string, depth int) string {
 			return "(" + strExpr(r, target[:i], depth-1) + " + " + strExpr(r, target[i:], depth-1) + ")"
 		}
 	case 1:
-		if !hasLower(target) && hasUpper(target) {
+		if !hasLower(target) && hasUpper(target) && isASCIIPlain(target) { // case mapping of bytes that are not text is the engine's business, not this harness's
 			return "upper(" + strExpr(r, mixCase(r, target), depth-1) + ")"
 		}
 	case 2:
-		if !hasUpper(target) && hasLower(target) {
+		if !hasUpper(target) && hasLower(target) && isASCIIPlain(target) {
 			return "lower(" + strExpr(r, mixCase(r, target), depth-1) + ")"
 		}
 	case 3:
@@ -233,8 +233,8 @@ func failingExpr(r *Rng) string {
 	}
 }
 
-var histKeyPool = []string{"", "a", "ab", "abc", "k1", "k2", "k3", "k10", "K1", "AB", "10", "7", "x-y", "b", "zz", "m_1", "k001", "k002"}
-var histValPool = []string{"v", "v1", "v2", "V", "hello", "Hello", "12", "0", "5", "", "x y", "val_a", "k1", "a-b", "1000"}
+var histKeyPool = []string{"", "a", "ab", "abc", "k1", "k2", "k3", "k10", "K1", "AB", "10", "7", "x-y", "b", "zz", "m_1", "k001", "k002", "k\xff", "\xff", "k\x00", "u\xe4\xb8"}
+var histValPool = []string{"v", "v1", "v2", "V", "hello", "Hello", "12", "0", "5", "", "x y", "val_a", "k1", "a-b", "1000", "v\xff", "\x80"}
 
 // floatForms are float-typed expressions; their text form is whatever the
 // engine's own str() says (the harness does not mirror a format).
@@ -363,7 +363,7 @@ func genRemoveStmt(r *Rng, model map[string]string, allowFail bool) HistStmt {
 		var p HistPair
 		if len(present) > 0 && r.Chance(0.7) {
 			k := pick(r, present)
-			if !isASCIIPlain(k) {
+			if !isQuotable(k) {
 				k = "a"
 			}
 			p = HistPair{K: k, KT: textExpr(r, k, nil, 2)}
